@@ -1,6 +1,6 @@
 """C13 — listing and pagination enumerate exactly the project's resources."""
 from engine import rule, CheckBroken
-from intervals import IntervalWalker, merge_partition, INT_RANGES
+from intervals import IntervalWalker, merge_partition, compare_partitions, INT_RANGES
 from slicing import Slicer
 from common import short_ty
 from props.c05 import diff_partition
@@ -76,12 +76,13 @@ def r13_1(prog, out):
             items.append((p.lo, p.hi, lab))
         got = merge_partition(items)
         expected = [(0, 0, "const 20"), (1, 1000, "input"), (1001, USIZE_MAX, "const 1000")]
-        if got == expected:
-            out.holds(key, prog.loc(ctor), "partition of the requested size is exactly %s" % got)
+        diffs = compare_partitions(got, expected, lambda a, b, v: (a if a != "input" else "const %d" % v) == (b if b != "input" else "const %d" % v))
+        if not diffs:
+            out.holds(key, prog.loc(ctor), "partition of the requested size is %s" % got)
         elif any(g[2] == "?" for g in got):
             out.undecided(key, prog.loc(ctor), "a path stores a size the analysis cannot classify: %s" % got)
         else:
-            out.violation(key, prog.loc(ctor), "effective page size differs from the specification on %s" % "; ".join(diff_partition(got, expected)),
+            out.violation(key, prog.loc(ctor), "effective page size differs from the specification on %s" % "; ".join(diffs),
                           ["got      %s" % got, "expected %s" % expected])
     # the accessor's own cap must not bind (>= 1000)
     for b in prog.facts.lib_bodies():
